@@ -510,6 +510,10 @@ func (f *GFile) Close() error {
 		return gfsErr("close", f.Path, gErrClosed)
 	}
 	f.Closed = true
+	if h := GfsOnClose; h != nil {
+		GfsOnClose = nil // one shot: the hook itself may close files
+		h()
+	}
 	return nil
 }
 
@@ -709,6 +713,14 @@ func FsCrashAfter(k, prefix int) {
 		GfsCrashK = -1
 	}
 }
+
+// GfsOnClose, when set, runs once right after the next successful Close of a file by the code under
+// test — the instant at which "another goroutine" gets to run between two steps of the code under
+// test (FsOnClose). Natively package zos calls it from (*File).Close.
+var GfsOnClose func()
+
+// FsOnClose registers f to run right after the next Close of a file (one shot; nil clears).
+func FsOnClose(f func()) { GfsOnClose = f }
 
 // FsMutations is the number of mutating operations since the last FsCrashAfter.
 func FsMutations() int { return GfsMuts }
